@@ -205,6 +205,24 @@ C10_ResetIsInit ==
   [][Reset => /\ saved' = 0 /\ buf' = <<>>
               /\ needed' = (IF cfg.kind = "FftFixedOut" THEN NeededInit(cfg) ELSE 0)]_vars
 
+\* This machine takes exactly the transitions of the parametric machine FftInd.tla (operators of
+\* FftIndOps.tla), whose invariant is PROVED inductive for arbitrary rates and sizes
+\* (FftIndProofs.tla); FftFixedInOut is the fixed-input machine with a chunk of exactly one block.
+IndOps == INSTANCE FftIndOps
+IFixedIn == cfg.kind # "FftFixedOut"
+IChunk == IF cfg.kind = "FftFixedInOut" THEN FftIn ELSE cfg.chunk
+IndNext ==
+  \/ IndOps!StepInP(A, B, FftIn, FftOut, IChunk, IFixedIn, saved, needed, drift, saved', needed', drift')
+  \/ IndOps!StepOutP(A, B, FftIn, FftOut, IChunk, IFixedIn, saved, needed, drift, saved', needed', drift')
+  \/ IndOps!ResetP(FftIn, FftOut, IChunk, IFixedIn, saved', needed', drift')
+IndRefines == /\ IndOps!InitP(FftIn, FftOut, IChunk, IFixedIn, saved, needed, drift)
+              /\ [][IndNext]_<<saved, needed, drift>>
+\* ... and therefore satisfies the proved invariant (checked here as well: the assumptions of the proof -
+\* positive rates, block count and chunk - hold for every configuration)
+IndInvHere == /\ A \in Nat /\ A > 0 /\ B \in Nat /\ B > 0 /\ FftChunks \in Nat /\ FftChunks > 0 /\ IChunk > 0
+              /\ FftIn = FftChunks * A /\ FftOut = FftChunks * B
+              /\ IndOps!IndInvP(A, B, FftIn, FftOut, IChunk, IFixedIn, saved, needed, drift)
+
 \* replay scripts: one per distinct state (invariant evaluated once per new state)
 EmitScript == Emit => PrintT("REPLAY|" \o ToJson(hist))
 
